@@ -98,6 +98,93 @@ def check(repo, col, tier):
                 col.unk("R-C03-steady", gfi, fn, f"outside the analysable fragment: {e}", node=gfi.node)
 
 
+    col.rule("R-C03-rows", "every channel is stepped on its own rows: gathered, advanced and written back with one index", 6)
+    channel_step_rows(repo, col, "R-C03-rows")
+
+
+def channel_step_rows(repo, col, R):
+    """Module._step_channels_state: for every channel the states, the voltage and the parameters handed to update_states are gathered
+    with ONE row selector (the rows where that channel is present), and every returned state REPLACES (`.set`) exactly those
+    rows of the state of the same name.  `.add` would put old + new into the gate, another selector the gates of another
+    compartment."""
+    import ast as _ast
+    from . import idx
+    from sa.terms import T, fuse_comprehensions as _fuse
+    fi = repo.method("Module", "_step_channels_state")
+    ex = idx.expander(repo, fi)
+    KEEP = ("query_channel_states_and_params",)
+
+    def N(t):
+        return _fuse(idx.inline(repo, fi, t, keep=KEEP))
+    calls = [c for c in ex.calls if isinstance(c.func, _ast.Attribute) and c.func.attr == "update_states"]
+    if not calls:
+        raise AnalysisError("Module._step_channels_state no longer calls channel.update_states")
+    call = calls[0]
+    t = N(ex.term(call))
+    args = list(t.args[1:])
+    if len(args) < 4:
+        col.unk(R, fi, "update_states(states, dt, voltages, params)", "unexpected arity", node=call)
+        return
+
+    def rows_of(a):
+        q = a if (a.op == "call" and a.name in KEEP) else None
+        if q is not None and len(q.args) >= 3:
+            return q.args[2], q.args[0]
+        if a.op == "sub":
+            return a.args[1], a.args[0]
+        return None, None
+    (r_s, src_s), (r_v, src_v), (r_p, src_p) = rows_of(args[0]), rows_of(args[2]), rows_of(args[3])
+    if r_s is None or r_v is None or r_p is None:
+        col.unk(R, fi, "update_states(states, dt, voltages, params): one row selector", "a gather was not recognised", node=call)
+        return
+    col.check(r_s.key() == r_v.key() == r_p.key(), R, fi, "update_states(states, dt, voltages, params): one row selector",
+              "states, voltage and parameters of the same compartments",
+              f"the arguments are gathered with different rows: states {r_s.short(60)}, voltages {r_v.short(60)}, params {r_p.short(60)}", node=call)
+    col.check(src_s.op == "param" and src_s.name == "states" and src_p.op == "param" and src_p.name == "params", R, fi,
+              "states are gathered from the states, parameters from the parameters", "query(states, ...), query(params, ...)",
+              f"the state argument is gathered from `{src_s.short(40)}`, the parameter argument from `{src_p.short(40)}`", node=call)
+    col.check(src_v.op == "sub" and src_v.args[0].op == "param" and src_v.args[0].name == "states" and src_v.args[1].op == "const" and
+              src_v.args[1].name == "v", R, fi, "the voltage argument is the state `v`", "states['v'][rows]",
+              f"the voltage argument is gathered from `{src_v.short(50)}`", node=call)
+    recv = t.args[0]
+    pres = T.find(r_s, lambda x: x.op == "attr" and x.name == "_name")
+    gci = T.find(r_s, lambda x: x.op == "const" and x.name == "global_comp_index")
+    col.check(pres is not None and gci is not None and pres.args[0].key() == recv.key(), R, fi,
+              "row selector = global compartment indices where the channel being stepped is present", "channel_nodes[channel._name]",
+              f"the rows `{r_s.short(80)}` are not derived from the presence column of the channel whose update_states is called", node=call)
+    # write-back
+    wb = [s_ for s_ in ex.stores if s_.kind == "sub" and s_.base.op == "param" and s_.base.name == "states"]
+    if not wb:
+        col.bad(R, fi, "updated states are written back", "no store into `states` is left: the gates are never advanced", node=fi.node)
+    for s_ in wb:
+        k, v = _fuse(s_.key), N(s_.value)
+        sc = v if (v.op == "mcall" and v.name in ("set", "add", "multiply", "min", "max")) else None
+        if sc is None or sc.args[0].op != "sub" or sc.args[0].args[0].op != "attr" or sc.args[0].args[0].name != "at":
+            col.unk(R, fi, f"write-back `{unparse(s_.node)[:60]}`", "not a `.at[rows].set(value)` update", node=s_.node)
+            continue
+        arr, rows, val = sc.args[0].args[0].args[0], sc.args[0].args[1], sc.args[1] if len(sc.args) > 1 else None
+        col.check(sc.name == "set", R, fi, "updated states replace the old ones", ".at[rows].set(new)",
+                  f"`{unparse(s_.node)[:80]}` uses `.{sc.name}`: the gate becomes old {'+' if sc.name == 'add' else sc.name} new instead of the "
+                  f"value update_states returned", node=s_.node)
+        col.check(rows.key() == r_s.key(), R, fi, "updated states are written to the rows they were computed from", "same selector",
+                  f"written to rows `{rows.short(60)}` but computed from rows `{r_s.short(60)}`", node=s_.node)
+        col.check(arr.op == "sub" and arr.args[0].op == "param" and arr.args[0].name == "states" and arr.args[1].key() == k.key(), R, fi,
+                  "the array updated is the state of the key being stored", "states[key] = states[key].at[...]",
+                  f"`{unparse(s_.node)[:80]}` stores an update of `{arr.short(40)}` under key `{k.short(30)}`", node=s_.node)
+        # (key, value) of one entry of the result of update_states
+        res_k = T.find(k, lambda x: x.op == "mcall" and x.name == "update_states")
+        pair = val is not None and res_k is not None and k.op == "item" and k.name == 0 and (
+            (val.op == "sub" and val.args[1].key() == k.key() and T.find(val.args[0], lambda x: x.op == "mcall" and x.name == "update_states") is not None)
+            or (val.op == "item" and val.name == 1 and val.args[0].key() == k.args[0].key()))
+        # `for key in updated: ... updated[key]` (iterating a dictionary yields its keys; also .keys())
+        if not pair and val is not None and k.op == "elem" and val.op == "sub" and val.args[1].key() == k.key():
+            d_ = k.args[0].args[0] if (k.args[0].op == "mcall" and k.args[0].name == "keys") else k.args[0]
+            pair = d_.key() == val.args[0].key() and d_.op == "mcall" and d_.name == "update_states"
+        col.check(bool(pair), R, fi, "each returned state is stored under its own name", "for key, val in updated.items()",
+                  f"key `{k.short(40)}` / value `{val.short(40) if val is not None else None}` are not the (key, value) pairs of update_states' result",
+                  node=s_.node)
+
+
 # --------------------------------------------------------------------------------------
 
 
